@@ -46,6 +46,8 @@ def num_equal(a, b, strict_arrays=True):
         aa, bb = np.asarray(a), np.asarray(b)
     except Exception:
         return False
+    if isinstance(a, (bool, np.bool_)) and bb.dtype.kind != "b":
+        return False          # True must not come back as the integer 1
     if aa.dtype.kind in "OUS" or bb.dtype.kind in "OUS":
         return False
     if aa.shape != bb.shape:
